@@ -40,8 +40,13 @@ def gates(chk, F):
         r = raw[0]
         # unwrap(...) form (Degree arm) or match Some(raw) form
         inner = raw
-        if r[0] == "call" and r[1].endswith("Option::<T>::unwrap"):
-            inner = r[2][0]
+        # look through unwrap(..) and the `x.ok_or_else(..)?` form (Try::branch(ok_or_else(x)) as Continue.0)
+        for _ in range(4):
+            r = inner[0]
+            if r[0] == "call" and r[2] and r[1].endswith(("Option::<T>::unwrap", "Try>::branch", "Option::<T>::ok_or_else", "Option::<T>::ok_or")):
+                inner = r[2][0]
+            else:
+                break
         is_div = inner[0][0] == "call" and inner[0][1].endswith("core::ops::arith::Div<&'b types::number::Number>>::div")
         tag = "degree" if "name_base_scale" in ap_str(raw) or "Context::lookup" in ap_str(bottom) else "expr"
         ok_q = False
@@ -59,10 +64,14 @@ def gates(chk, F):
         if tag == "degree":
             # top - zero : the numerator is Sub(top, lookup(base)); the compared operand is `top`
             n = top_owner
-            if n[0][0] == "call" and n[0][1].endswith("Option::<T>::unwrap"):
-                n = n[0][2][0]
+            for _ in range(4):
+                if n[0][0] == "call" and n[0][2] and n[0][1].endswith(("Option::<T>::unwrap", "Try>::branch", "Option::<T>::ok_or_else", "Option::<T>::ok_or")):
+                    n = n[0][2][0]
+                else:
+                    break
             if n[0][0] == "call" and n[0][1].endswith("core::ops::arith::Sub<&'b types::number::Number>>::sub"):
-                top_owner = n[0][2][0]
+                # re-derive the operand from the Sub call itself (the nested path may have hit the depth limit)
+                top_owner = fn.apath(fn.blocks[n[0][3]]["term"]["args"][0])
         owners = {val_key(top_owner), val_key(bottom)}
 
         def acc(kind, ap, info, owners=owners):
